@@ -37,6 +37,10 @@ func parseScanArgs(args [][]byte) (cursor []byte, match string, count int, err e
 			if err != nil {
 				return
 			}
+			if count < 0 {
+				err = common.ErrInvalidArgs
+				return
+			}
 
 			i++
 		default:
